@@ -67,3 +67,84 @@ class GhostJitter(object):
 
     def func_ret_stdcall(self, ret_ad, ret1=None, ret2=None):
         self.rets.append((ret_ad, ret1, ret2))
+
+
+class GhostFile(object):
+    """Assumed contract of a seekable binary file object (io.BufferedReader / BytesIO): seek(pos, whence) with whence 0 and 2,
+    tell(), read(n) returning the bytes [pos, pos+n) clipped to the file and advancing the position."""
+
+    def __init__(self, content):
+        self.content = content
+        self.pos = 0
+
+    def seek(self, pos, whence=0):
+        if whence == 0:
+            self.pos = pos
+        elif whence == 2:
+            self.pos = len(self.content) + pos
+        else:
+            self.pos = self.pos + pos
+        if self.pos < 0:
+            raise ValueError("negative seek value")
+        return self.pos
+
+    def tell(self):
+        return self.pos
+
+    def read(self, n=-1):
+        start = self.pos
+        if start > len(self.content):
+            start = len(self.content)
+        if n is None or n < 0:
+            stop = len(self.content)
+        else:
+            stop = start + n
+            if stop > len(self.content):
+                stop = len(self.content)
+        data = self.content[start:stop]
+        self.pos = stop
+        return data
+
+
+class GhostVirt(object):
+    """Assumed contract of a parsed binary's virtual view: get(start, stop) returns the bytes of [start, stop) when the whole
+    range is inside the single mapped region [base, base+len), raises ValueError otherwise."""
+
+    def __init__(self, base, content):
+        self.base = base
+        self.content = content
+
+    def get(self, start, stop=None):
+        if start < self.base or stop > self.base + len(self.content) or stop < start:
+            raise ValueError("address not mapped")
+        return self.content[start - self.base:stop - self.base]
+
+    def max_addr(self):
+        return self.base + len(self.content)
+
+    def is_addr_in(self, ad):
+        return self.base <= ad < self.base + len(self.content)
+
+
+class GhostContainer(object):
+    def __init__(self, virt, sex=0):
+        self.virt = virt
+        self._sex = sex
+        self.sex = sex
+
+
+class GhostVmMem(object):
+    """Assumed contract of VmMngr.get_mem: the bytes of [addr, addr+size) when mapped (one region), RuntimeError otherwise."""
+
+    def __init__(self, base, content, little=True):
+        self.base = base
+        self.content = content
+        self.little = little
+
+    def is_little_endian(self):
+        return self.little
+
+    def get_mem(self, addr, size):
+        if addr < self.base or addr + size > self.base + len(self.content) or size < 0:
+            raise RuntimeError("Cannot find address")
+        return self.content[addr - self.base:addr - self.base + size]
